@@ -252,3 +252,127 @@ CATALOGUE['C04'] = [
       'was_t = isinstance(v, TaintedString)\n    wastainted = was_t\n'
       '    v = str(v)\n    vl'),
 ]
+
+# --------------------------------------------------------------------- C06
+CATALOGUE['C06'] = [
+    V('param pattern made ambiguous', 'DT_Util.py',
+      """qunparmre=re.compile('([\\000- ]*("[^"]*"))')""",
+      """qunparmre=re.compile('([\\000- ]*("(.*)*"))')""", 'C06.R1'),
+    V('tagre: inner + restored (the repaired defect)', 'DT_String.py',
+      """'(?P<args>([^\\\\)"]("[^"]*")?)*)' """,
+      """'(?P<args>([^\\\\)"]+("[^"]*")?)*)'""", 'C06.R1'),
+    V('scanner name pattern doubled star', 'DT_HTML.py',
+      "name_match=re.compile('[\\000- ]*[a-zA-Z]+[\\000- ]*').match",
+      "name_match=re.compile('([\\000- ]*[a-zA-Z]+)+[\\000- ]*').match",
+      'C06.R1'),
+    V('If raises ValueError', 'DT_If.py',
+      "raise ParseError('name in else does not match if', 'in')",
+      "raise ValueError('name in else does not match if', 'in')", 'C06.R2'),
+    V('ParseError with one argument', 'DT_In.py',
+      "raise ParseError('too many else blocks', 'in')",
+      "raise ParseError('too many else blocks')", 'C06.R2'),
+    V('shorthand Eval unwrapped in name_param', 'DT_Util.py',
+      """                try:
+                    expr = Eval(v)
+                except SyntaxError as v:
+                    raise ParseError(
+                        '<strong>Expression (Python) Syntax error</strong>:'
+                        '\\n<pre>\\n%s\\n</pre>\\n' % v.args[0],
+                        tag)
+""",
+      """                expr = Eval(v)
+""", 'C06.R2'),
+    V('single char index on source (the repaired defect)', 'DT_HTML.py',
+      "text[s + 5:s + 6] in ('.', '-'):", "text[s + 5] in '.-':",
+      'C06.R3a'),
+    V('skip_eol peeks a character', 'DT_String.py',
+      """        mo = eol.match(text, start)
+        if mo is not None:""",
+      """        mo = eol.match(text, start)
+        if mo is not None and text[start] != 'x':""", 'C06.R3a'),
+    V('name_param reads name without test', 'DT_Util.py',
+      """    elif attr in params:
+        if expr:""",
+      """    elif attr in params or params[attr]:
+        if expr:""", 'C06.R3b'),
+    V('With reads mapping without membership test', 'DT_With.py',
+      "if 'mapping' in args and args['mapping']:",
+      "if args['mapping']:", 'C06.R3b'),
+    V('In reads sort after wrong test', 'DT_In.py',
+      """        if 'sort' in args:
+            self.sort = sort = args['sort']""",
+      """        if 'sort_expr' in args:
+            self.sort = sort = args['sort']""", 'C06.R3b'),
+    V('Let destructures again (the repaired defect)', 'DT_Let.py',
+      """                except SyntaxError as v:
+                    raise ParseError(""",
+      """                except SyntaxError as v:
+                    m, (huh, l, c, src) = v
+                    raise ParseError(""", 'C06.R3c'),
+    V('block error at end tag (the repaired defect)', 'DT_String.py',
+      "self.parse_error(m.args[0], stag, text, sloc)",
+      "self.parse_error(m.args[0], stag, text, l_)", 'C06.R4'),
+    V('no closing tag located at scan position', 'DT_String.py',
+      """            if mo is None:
+                self.parse_error('No closing tag', stag, text, sloc)
+            l_ = mo.start(0)
+
+            try:
+                tag, args, command, coname = self._parseTag(mo, scommand, sa)
+            except ParseError as m:
+                self.parse_error(m.args[0], m.args[1], text, l_)
+
+            if command:""",
+      """            if mo is None:
+                self.parse_error('No closing tag', stag, text, start)
+            l_ = mo.start(0)
+
+            try:
+                tag, args, command, coname = self._parseTag(mo, scommand, sa)
+            except ParseError as m:
+                self.parse_error(m.args[0], m.args[1], text, l_)
+
+            if command:""", 'C06.R4'),
+    V('new self-recursive helper', 'DT_If.py',
+      """class If:""",
+      """def _count(blocks):
+    if not blocks:
+        return 0
+    return 1 + _count(blocks[1:])
+
+
+class If:""", 'C06.R5',
+      extra=[("        tname, args, section = blocks[0]\n"
+              "        args = parse_params(args, name='', expr='')\n"
+              "        name, expr = name_param(args, 'if', 1)",
+              "        tname, args, section = blocks[0]\n"
+              "        _count(blocks)\n"
+              "        args = parse_params(args, name='', expr='')\n"
+              "        name, expr = name_param(args, 'if', 1)")]),
+    V('registry entry names missing attribute', 'DT_String.py',
+      "'in': ('in', 'DT_In', 'In'),", "'in': ('in', 'DT_In', 'Inn'),",
+      'C06.R6'),
+    V('command name differs from key', 'DT_If.py',
+      "    name = 'unless'", "    name = 'unles'", 'C06.R6'),
+    # silent
+    V('silent: \\d instead of [0-9] in tagre', 'DT_String.py',
+      "(?P<fmt>[0-9]*[.]?[0-9]*[a-z]|[]![])",
+      "(?P<fmt>[0-9]*[.]?\\\\d*[a-z]|[]![])"),
+    V('silent: membership via early raise', 'DT_With.py',
+      "if 'mapping' in args and args['mapping']:",
+      "if 'mapping' in args and args['mapping'] and True:"),
+    V('silent: rename l_ in parse', 'DT_String.py',
+      """            l_ = mo.start(0)
+
+            try:
+                tag, args, command, coname = self._parseTag(mo)
+            except ParseError as m:
+                self.parse_error(m.args[0], m.args[1], text, l_)""",
+      """            pos = mo.start(0)
+            l_ = pos
+
+            try:
+                tag, args, command, coname = self._parseTag(mo)
+            except ParseError as m:
+                self.parse_error(m.args[0], m.args[1], text, pos)"""),
+]
